@@ -156,6 +156,13 @@ def build(extra_rewrites=None, lock_overlay=False, buffer_min=None, quiet=True):
         info["rewrites"]["STREAM_BUFFER_MIN %s->%d (scaled)" % (m[0], buffer_min)] = 1
         info["buffer_min_real"] = int(m[0])
         text = pat.sub("const STREAM_BUFFER_MIN: usize = %d;" % buffer_min, text)
+        # Vec::resize with a symbolic new length is an allocation of symbolic size for CBMC;
+        # route the (counted) call sites through an equivalent bounded-loop helper.
+        n_resize = len(re.findall(r"self\.data\.resize\(([a-z_]+), 0\);", text))
+        if n_resize != 2:
+            raise Inconclusive("stream_buffer.rs: expected 2 self.data.resize(.., 0) sites, found %d" % n_resize)
+        text = re.sub(r"self\.data\.resize\(([a-z_]+), 0\);", r"crate::internal::verif::env::vec_resize(&mut self.data, \1, 0);", text)
+        info["rewrites"]["stream_buffer.rs Vec::resize -> bounded helper (same result)"] = n_resize
         open(p, "w").write(text)
     # 5. optional: instrumented lock (C14)
     if lock_overlay:
